@@ -65,6 +65,34 @@ def run(run, tier):
         SC.report(run, 'C04', 'Gillespie_' + kind, res, 'Model/Gillespie.v', 'Props/C04.v')
         per['Gillespie_' + kind] = {'proved': True, 'cases': res.n, 'mismatches': len(res.mism), 'oracle_failures': len(res.oracle_bad), 'distribution': res.stats}
         total.n += res.n; total.nontrivial += res.nontrivial; total.distinct |= res.distinct; total.samples += res.samples[:2]
+    # --- graphs with self-loops (legal networkx input; raw configuration_model output has them; the Markovian simulators have code for
+    # them): seeded real randomness, both return modes, judged by the trajectory oracle on the arrays
+    import random as pyrandom, numpy as np, networkx as nx
+    from . import simrun as R_
+    nloops = 0
+    for name in ('Gillespie_SIR', 'Gillespie_SIS', 'fast_SIR', 'fast_SIS'):
+        for i in range(40 if tier == 'quick' else 600):
+            gc = R_.gen_graph(rng, nmax=8, nmin=2, ewl=rng.choice([None, 'tw']), nwl=None, zero_w=False)
+            G = gc.G
+            for u in rng.sample(gc.order, min(rng.randint(1, 2), len(gc.order))):
+                G.add_edge(u, u)
+                if gc.ewl: G.adj[u][u][gc.ewl] = 1.0
+            sel = rng.sample(gc.order, rng.randint(1, min(2, len(gc.order)))); tmin = rng.choice([0, 1.5, -2]); full = bool(i % 2)
+            seed = rng.randrange(10 ** 6); pyrandom.seed(seed); np.random.seed(seed)
+            sir = name.endswith('SIR'); tmax = tmin + rng.choice([2.0, 4.0])
+            try:
+                out = getattr(EoN, name)(G, 1.0, 1.0, initial_infecteds=sel, tmin=tmin, tmax=tmax, transmission_weight=gc.ewl, return_full_data=full)
+                cols = [out.t(), out.S(), out.I()] + ([out.R()] if sir else []) if full else list(out)
+                rows = R_.canon_arrays(cols)
+                d = X.wf_traj(rows, tmin, tmax, len(gc.order), X.SIR_MOVES if sir else X.SIS_MOVES, True)
+            except Exception as e:
+                d = 'raised %s: %s' % (type(e).__name__, str(e)[:80])
+            nloops += 1
+            if d:
+                run.violation('C04/%s/self-loops' % name, '%s on a graph with self-loops (seed %d, %s): %s' % (name, seed, 'full data' if full else 'arrays', d),
+                              {'entry': name, 'kind': 'selfloop', 'graph': gc.to_json(), 'loops': [repr(u) for u, v in nx.selfloop_edges(G)], 'i0': [repr(u) for u in sel], 'tmin': tmin, 'tmax': tmax, 'seed': seed, 'full': full})
+                break
+    per['self-loop graphs (seeded real random)'] = {'runs': nloops}
     # --- other simulator libraries, as they are built
     from . import xsim
     xsim.run_others(run, 'C04', EoN, sim, tier, per, total, 'wf_traj')
